@@ -48,6 +48,13 @@ type g6Case struct {
 	PadClean bool       `json:"padclean"`
 	Reenc    *byteSeq   `json:"reenc,omitempty"`
 	IDMap    string     `json:"idmap,omitempty"`
+	// k = "gid" (Graph6Ids.tla): a graph on an arbitrary node ID set
+	Ids      []string    `json:"ids,omitempty"`  // decimal IDs, ascending
+	Arcs     [][2]string `json:"arcs,omitempty"` // arcs (digraph6) / edges, smaller end first (graph6), as pairs of IDs
+	Sym      bool        `json:"sym,omitempty"`
+	Boundary bool        `json:"boundary,omitempty"`
+	Cont     string      `json:"cont,omitempty"` // container (set in failure cases: replay only this one)
+	Order    int         `json:"order,omitempty"`
 }
 
 // idOf maps model node i (0..n-1) to a real node id; every map is strictly
@@ -416,6 +423,10 @@ func replayGraph6(in *core.Lines, args []string, seed int64, sum *core.Summary) 
 			}
 			if c.Cls != "invalid" && sum.Cases%499 == 1 {
 				sum.Sample(map[string]any{"s": s, "cls": c.Cls, "n": c.N, "edges": len(c.Edges), "dir": c.Dir})
+			}
+		case "gid":
+			if err := replayGid(&c, in.N, seed, sum); err != nil {
+				return err
 			}
 		default:
 			return fmt.Errorf("line %d: unknown record kind %q", in.N, c.K)
